@@ -90,6 +90,7 @@ type Shaper struct {
 	depth int
 	// allocStores caches, per alloc, the stores made to it (whole value) and per-field stores
 	stores map[*ssa.Alloc]*allocInfo
+	unit   *unitInfo // set for the anchor of a unit: values of folded helpers are rendered in its terms
 }
 
 type allocInfo struct {
@@ -157,6 +158,48 @@ func (sh *Shaper) Of(v ssa.Value) *Shape {
 	}
 	if s, ok := sh.memo[v]; ok {
 		return s
+	}
+	if sh.unit != nil {
+		// the result of a folded helper (a closure invoked on the spot, a split-off tail) that has
+		// one return is that return's value, in the anchor's terms
+		var call *ssa.Call
+		ri := 0
+		switch x := v.(type) {
+		case *ssa.Call:
+			call = x
+		case *ssa.Extract:
+			if c, ok := x.Tuple.(*ssa.Call); ok {
+				call, ri = c, x.Index
+			}
+		}
+		if call != nil {
+			// (closures only: calls of named helpers keep their @name(...) form, which rules refer to)
+			if callee := call.Call.StaticCallee(); callee != nil && callee.Parent() != nil && sh.unit.by[callee] != nil && sh.unit.by[callee].call == call {
+				var rets []*ssa.Return
+				for _, b := range callee.Blocks {
+					if r, ok := b.Instrs[len(b.Instrs)-1].(*ssa.Return); ok && !(b.Comment == "recover" && len(b.Preds) == 0) {
+						rets = append(rets, r)
+					}
+				}
+				if _, isCall := v.(*ssa.Call); len(rets) == 1 && ri < len(rets[0].Results) && (!isCall || len(rets[0].Results) == 1) && !sh.busy[v] {
+					sh.busy[v] = true
+					s := sh.Of(rets[0].Results[ri])
+					delete(sh.busy, v)
+					sh.memo[v] = s
+					return s
+				}
+			}
+		}
+		if pf := valueParent(v); pf != nil && pf != sh.fn && sh.unit.by[pf] != nil {
+			if sh.busy[v] {
+				return atom("unk", "loop")
+			}
+			sh.busy[v] = true
+			s := sh.unit.ofForeign(v, pf)
+			delete(sh.busy, v)
+			sh.memo[v] = s
+			return s
+		}
 	}
 	if sh.busy[v] {
 		return atom("unk", "loop")
